@@ -991,6 +991,13 @@ Error RALocalAllocator::alloc_instruction(InstNode* node) noexcept {
             uint32_t consecutive_index = best_lead_reg + i;
             RATiedReg* tied_reg = consecutive_regs[i];
             tied_reg->set_out_id(consecutive_index);
+
+            // The chosen register may still hold a live value - it must be spilled before it's overwritten.
+            RAWorkId occupant_id = _cur_assignment.phys_to_work_id(group, consecutive_index);
+            if (occupant_id != kBadWorkId) {
+              ASMJIT_PROPAGATE(on_spill_reg(group, work_reg_by_id(occupant_id), occupant_id, consecutive_index));
+              live_regs &= ~Support::bit_mask<RegMask>(consecutive_index);
+            }
           }
         }
       }
